@@ -10,10 +10,12 @@ ID = 'C05'
 RULE = ('cases: a multiplier-free grammar AST (C04 generator) decorated with |n on nodes (first node, inside '
         'branches, before a bond symbol, annotated) and on branch units anchor+branch (n in 1,2,3,4,12; optional '
         'bond symbol between copies and after the last copy; unit contents: bond orders, annotations, nested '
-        'branches, node multipliers, nested unit multipliers, rings closed inside the unit); plus an exhaustive '
+        'branches, node multipliers, nested unit multipliers, rings closed inside the unit); 3 %: one polymer-sized '
+        'multiplier (100-1000) on a node or a small unit; plus an exhaustive '
         'enumeration of small units. Oracle: read(shorthand) isomorphic (names, all annotation attributes, orders) '
         'to read(longhand written out on the AST); longhand equals the reference interpreter exactly; node-only '
-        'multipliers additionally give identical numbering. non-trivial = some multiplier n>=2; distinct = string')
+        'multipliers additionally give identical numbering; annotation-free strings are also read as the body of a '
+        'coarse fragment definition (no enclosing braces), shorthand and longhand. non-trivial = some multiplier n>=2; distinct = string')
 ASSUMPTIONS = ['a multiplied anchor has exactly one branch and carries no ring marker (no documented meaning otherwise)',
                'ring ids used inside a multiplied unit are used nowhere else']
 
@@ -42,6 +44,8 @@ def make_case(ast, extra_feats=()):
 
 
 def gen(R, tier):
+    if R.chance(0.03):
+        return make_case(gram.gen_big_mult_ast(R), {'three_or_four_digit_multiplier'})
     lo, hi = R.choice([(1, 3), (2, 6), (4, 10)])
     style = R.choice(['nodes', 'units', 'units', 'mixed', 'annotated', 'ringy'])
     kw = dict(max_nodes=hi, min_nodes=lo, p_branch=0.45, p_ring=0.1, p_sym=0.35, max_depth=3, max_branches=2)
@@ -179,3 +183,17 @@ def oracle(case):
            lambda: 'shorthand edges %r / longhand %s edges %r' % (
                sorted((min(a, b), max(a, b), o) for a, b, o in g1.edges(data='order')), case['longhand'],
                sorted((min(a, b), max(a, b), o) for a, b, o in g2.edges(data='order'))))
+    if ';' not in case['input']:
+        # the same text as the body of a coarse fragment definition (read without enclosing braces; a
+        # multiplier may then be the very last token of the text)
+        from cgsmiles.read_fragments import read_fragments
+        f1 = sut(read_fragments, '{#X=%s}' % case['input'][1:-1], all_atom=False)['X']
+        f2 = sut(read_fragments, '{#X=%s}' % case['longhand'][1:-1], all_atom=False)['X']
+        ok = (f1.number_of_nodes() == f2.number_of_nodes() == g2.number_of_nodes() and
+              f1.number_of_edges() == f2.number_of_edges() == g2.number_of_edges() and
+              nx.is_isomorphic(f1, f2, node_match=lambda a, b: a.get('atomname') == b.get('atomname'), edge_match=_em) and
+              nx.is_isomorphic(f1, g2, node_match=lambda a, b: a.get('atomname') == b.get('fragname'), edge_match=_em))
+        expect(ok, 'multiplier:coarse-fragment-body',
+               lambda: 'as coarse fragment #X=%s: %d nodes / %d edges, written out: %d / %d, as graph string %d / %d' % (
+                   case['input'][1:-1], f1.number_of_nodes(), f1.number_of_edges(), f2.number_of_nodes(), f2.number_of_edges(),
+                   g2.number_of_nodes(), g2.number_of_edges()))
